@@ -4,6 +4,7 @@ import json as _json
 import re as _re
 
 from harness.lib import S, L, P, B, Zc, O
+from harness.lib import OS as OS_
 
 ID = "C20"
 COQ_PROP = "props/C20.v"
@@ -12,7 +13,9 @@ CORR_CHECK = "check_case"
 CORR_SHOW = "show_case"
 GEN_FILES = ["gen/C20Table.v"]
 SHARD = 300
-RULE = ("five families in one Gallina sum type: intervals (every subset of non-zero fields x digit lengths 1-7 incl. "
+RULE = ("interval/json/seq terms are rendered under a context: own keyword arguments, or one of the ten query classes x "
+        "{direct get_sql with the class constants, select list, WHERE operand, function argument, INSERT value}; "
+        "five families in one Gallina sum type: intervals (every subset of non-zero fields x digit lengths 1-7 incl. "
         "values ending in 0 / powers of ten x sign x dialect given at construction and/or at render, plus quarters, "
         "weeks, all-zero and a malformed stream of mixed signs / combined quarter-week-field arguments); trim (random "
         "strings over 0-9 - : . space against Python re); read (the harness' independent expression reader against "
@@ -49,6 +52,78 @@ def _dialect(name):
 
 def _dcoq(name):
     return "None" if name is None else "(Some %s)" % DCOQ[name]
+
+
+# ------------------------------------------------------------------------------------------------
+# keyword contexts: the ten query classes, directly and inside real statements
+# ------------------------------------------------------------------------------------------------
+CLASS_NAMES = ["Query", "MySQLQuery", "VerticaQuery", "OracleQuery", "PostgreSQLQuery", "RedshiftQuery", "MSSQLQuery",
+               "ClickHouseQuery", "SQLLiteQuery", "SnowflakeQuery"]
+POSITIONS = ["direct", "select", "where", "fnarg", "insert"]
+HOLE = "@@C20HOLE@@"
+
+
+def query_classes():
+    import pypika
+    import pypika.dialects as d
+    return [pypika.Query if n == "Query" else getattr(d, n) for n in CLASS_NAMES]
+
+
+def class_kwargs(cls):
+    """The keyword context the class's builder hands to every term (its constants)."""
+    b = cls._builder()
+    return dict(quote_char=b.QUOTE_CHAR, secondary_quote_char=b.SECONDARY_QUOTE_CHAR,
+                alias_quote_char=b.ALIAS_QUOTE_CHAR, dialect=b.dialect)
+
+
+def case_kwargs(case):
+    """(kwargs for term.get_sql, dialect name) of a case."""
+    if case.get("cls") is not None:
+        kw = class_kwargs(query_classes()[case["cls"]])
+        return kw, (None if kw["dialect"] is None else kw["dialect"].name)
+    k = case["kind"]
+    if k == "interval":
+        return ({} if case["dr"] is None else {"dialect": _dialect(case["dr"])}), case["dr"]
+    if k == "seq":
+        return skw(case["d"]), case["d"]
+    kw = dict(case.get("kw") or {})
+    return kw, None
+
+
+def _statement(cls, pos, term):
+    from pypika import Table, functions as fn
+    t = Table("t")
+    if pos == "select":
+        return cls.from_(t).select(term)
+    if pos == "where":
+        return cls.from_(t).select(t.a).where(t.c == term)
+    if pos == "fnarg":
+        return cls.from_(t).select(fn.Coalesce(t.x, term))
+    if pos == "insert":
+        return cls.into(t).insert(term)
+    raise ValueError(pos)
+
+
+def render_in_context(term, case):
+    """Text of the term under the case's context: direct get_sql with the keyword arguments, or the
+    term's part of a real statement of the query class (frame taken from the same statement
+    rendered with a placeholder term)."""
+    pos = case.get("pos") or "direct"
+    kw, _ = case_kwargs(case)
+    if case.get("cls") is None or pos == "direct":
+        return term.get_sql(**kw)
+    from pypika.terms import PseudoColumn
+    cls = query_classes()[case["cls"]]
+    frame = _statement(cls, pos, PseudoColumn(HOLE)).get_sql()
+    pre, _, post = frame.partition(HOLE)
+    text = _statement(cls, pos, term).get_sql()
+    if not (text.startswith(pre) and text.endswith(post) and len(text) >= len(pre) + len(post)):
+        raise FrameError("statement %r does not have the frame %r ... %r" % (text, pre, post))
+    return text[len(pre):len(text) - len(post)]
+
+
+class FrameError(Exception):
+    pass
 
 
 # ------------------------------------------------------------------------------------------------
@@ -302,13 +377,13 @@ def skw(dname):
     return dict(dialect=_dialect(dname), quote_char='"', secondary_quote_char="'")
 
 
-def scoq(d, dname):
+def scoq(d, kw):
     k = d[0]
     if k in ("tuple", "array"):
-        return "(SSeq %s %s)" % ("KTuple" if k == "tuple" else "KArray", L([scoq(x, dname) for x in d[1]]))
+        return "(SSeq %s %s)" % ("KTuple" if k == "tuple" else "KArray", L([scoq(x, kw) for x in d[1]]))
     if k == "bracket":
-        return "(SSeq KTuple %s)" % L([scoq(d[1], dname)])
-    return "(SAtom %s)" % S(sbuild(d).get_sql(**skw(dname)))
+        return "(SSeq KTuple %s)" % L([scoq(d[1], kw)])
+    return "(SAtom %s)" % S(sbuild(d).get_sql(**kw))
 
 
 def s_children(d):
@@ -348,6 +423,18 @@ def _dialect_pair(rng):
     return a, b
 
 
+def _pick_ctx(rng, p_cls):
+    """class index + position, or (None, None) for a direct call with the case's own keyword arguments"""
+    if rng.random() < p_cls:
+        return rng.randrange(len(CLASS_NAMES)), rng.choice(POSITIONS)
+    return None, None
+
+
+JSON_KW = [{}, {}, {"quote_char": "`"}, {"quote_char": None}, {"quote_char": "["}, {"quote_char": "'"},
+           {"quote_char": "`", "alias_quote_char": '"'}, {"secondary_quote_char": '"'},
+           {"quote_char": None, "secondary_quote_char": "'", "alias_quote_char": None}]
+
+
 def gen_intervals(rng, n):
     out = []
     masks = list(range(1, 128))
@@ -373,6 +460,10 @@ def gen_intervals(rng, n):
             vals = [rng.choice([0, 0, 1, -1]) * _value(rng) for _ in range(7)]
             out.append({"kind": "interval", "vals": vals, "q": rng.choice([0, 0, 0, 3, -2]), "w": rng.choice([0, 0, 5, -1]),
                         "dc": dc, "dr": dr})
+    for c in out:
+        cls, pos = _pick_ctx(rng, 0.4)
+        if cls is not None:
+            c.update({"dr": None, "cls": cls, "pos": pos})
     return out
 
 
@@ -451,7 +542,13 @@ def gen_jdesc(rng, depth, clean):
 def gen_jsons(rng, n):
     out = []
     for _ in range(n):
-        out.append({"kind": "json", "v": gen_jdesc(rng, rng.choice([0, 1, 2, 2, 3, 4]), rng.random() < 0.55)})
+        c = {"kind": "json", "v": gen_jdesc(rng, rng.choice([0, 1, 2, 2, 3, 4]), rng.random() < 0.55)}
+        cls, pos = _pick_ctx(rng, 0.75)
+        if cls is not None:
+            c.update({"cls": cls, "pos": pos})
+        else:
+            c["kw"] = rng.choice(JSON_KW)
+        out.append(c)
     return out
 
 
@@ -495,7 +592,11 @@ def gen_seqs(rng, n):
             t = ["bracket", gen_sdesc(rng, depth)]
         else:
             t = [kind, [gen_sdesc(rng, depth) for _ in range(rng.choice([0, 1, 2, 3, 3, 5]))]]
-        out.append({"kind": "seq", "d": rng.choices(dch, w)[0], "t": t})
+        c = {"kind": "seq", "d": rng.choices(dch, w)[0], "t": t}
+        cls, pos = _pick_ctx(rng, 0.6)
+        if cls is not None:
+            c.update({"d": None, "cls": cls, "pos": pos})
+        out.append(c)
     return out
 
 
@@ -538,6 +639,15 @@ def corpus():
         {"kind": "seq", "d": "POSTGRESQL", "t": ["array", [["str", ""]]]},
         {"kind": "seq", "d": None, "t": ["bracket", ["arith", "a"]]},
     ]
+    for cls in range(len(CLASS_NAMES)):
+        for pos in POSITIONS:
+            out.append({"kind": "json", "v": ["d", [[["s", "a"], ["l", [["s", "foo"], ["i", 1]]]]]], "cls": cls, "pos": pos})
+        pos = POSITIONS[cls % len(POSITIONS)]
+        out.append(dict(iv([0, 0, -1, -20, 0, 0, 0]), cls=cls, pos=pos))
+        out.append({"kind": "seq", "d": None, "t": ["array", [["str", "a,b"], ["array", []], ["field", "x"]]], "cls": cls, "pos": pos})
+        out.append({"kind": "seq", "d": None, "t": ["array", []], "cls": cls, "pos": POSITIONS[(cls + 1) % len(POSITIONS)]})
+    for kw in JSON_KW:
+        out.append({"kind": "json", "v": ["d", [[["s", "k"], ["s", "v"]]]], "kw": kw})
     return out
 
 
@@ -552,9 +662,7 @@ def run_impl(case):
             v = case["vals"]
             i = Interval(years=v[0], months=v[1], days=v[2], hours=v[3], minutes=v[4], seconds=v[5], microseconds=v[6],
                          quarters=case["q"], weeks=case["w"], dialect=_dialect(case["dc"]))
-            if case["dr"] is None:
-                return {"out": i.get_sql()}
-            return {"out": i.get_sql(dialect=_dialect(case["dr"]))}
+            return {"out": render_in_context(i, case)}
         if k == "trim":
             from pypika.terms import Interval
             return {"out": Interval.trim_pattern.sub("", case["s"])}
@@ -562,12 +670,11 @@ def run_impl(case):
             return {"rd": py_read(case["u"], case["e"])}
         if k == "json":
             from pypika.terms import JSON
-            return {"out": JSON(jbuild(case["v"])).get_sql()}
+            return {"out": render_in_context(JSON(jbuild(case["v"])), case)}
         if k == "seq":
-            t = sbuild(case["t"])
-            return {"out": t.get_sql(**skw(case["d"]))}
+            return {"out": render_in_context(sbuild(case["t"]), case)}
     except Exception as ex:  # noqa
-        return {"exc": type(ex).__name__}
+        return {"exc": type(ex).__name__, "msg": str(ex)[:300]}
     raise ValueError(k)
 
 
@@ -579,8 +686,9 @@ def to_coq(case, outcome):
     if "exc" in outcome:
         return None
     if k == "interval":
+        _, dname = case_kwargs(case)
         return "(CInterval %s %s %s %s %s %s)" % (L([Zc(v) for v in case["vals"]]), Zc(case["q"]), Zc(case["w"]),
-                                                   _dcoq(case["dc"]), _dcoq(case["dr"]), S(outcome["out"]))
+                                                   _dcoq(case["dc"]), _dcoq(dname), S(outcome["out"]))
     if k == "trim":
         return "(CTrim %s %s)" % (S(case["s"]), S(outcome["out"]))
     if k == "read":
@@ -592,11 +700,15 @@ def to_coq(case, outcome):
         finite = all(not (isinstance(x, float) and (x != x or abs(x) == float("inf"))) for x in _jwalk(v))
         dumps = _json.dumps(v, separators=(",", ":"), ensure_ascii=False) if finite else None
         dec = py_sql_decode(outcome["out"])
-        return "(CJson %s %s %s %s)" % (jcoq(v), S(outcome["out"]), O(None if dumps is None else S(dumps)),
-                                        O(None if dec is None else S(dec)))
+        kw, dname = case_kwargs(case)
+        ctx = "(mkCtx %s %s %s %s)" % (OS_(kw.get("quote_char")), OS_(kw.get("secondary_quote_char", "'")),
+                                       OS_(kw.get("alias_quote_char")), _dcoq(dname))
+        return "(CJson %s %s %s %s %s)" % (ctx, jcoq(v), S(outcome["out"]), O(None if dumps is None else S(dumps)),
+                                           O(None if dec is None else S(dec)))
     if k == "seq":
         toks = py_elements(outcome["out"])
-        return "(CSeq %s %s %s %s)" % (_dcoq(case["d"]), scoq(case["t"], case["d"]), S(outcome["out"]),
+        kw, dname = case_kwargs(case)
+        return "(CSeq %s %s %s %s)" % (_dcoq(dname), scoq(case["t"], kw), S(outcome["out"]),
                                        O(None if toks is None else L([S(x) for x in toks])))
     raise ValueError(k)
 
@@ -627,7 +739,7 @@ def oracle_interval(case, outcome):
     if "exc" in outcome:
         return [{"signature": ["C20", "interval", "exception:" + outcome["exc"]], "what": "Interval raised %s on %r" % (outcome["exc"], case)}]
     out = outcome["out"]
-    eff = case["dc"] or case["dr"]
+    eff = case["dc"] or case_kwargs(case)[1]
     if eff in EXPR_ONLY_QUOTED:
         m = _re.fullmatch(r"INTERVAL '([^']*)' ([A-Z_]+)", out)
     else:
@@ -666,38 +778,48 @@ def oracle_interval(case, outcome):
     return []
 
 
+def _ctx_text(case):
+    if case.get("cls") is not None:
+        return "%s / %s" % (CLASS_NAMES[case["cls"]], case.get("pos") or "direct")
+    return "get_sql(%s)" % ", ".join("%s=%r" % kv for kv in sorted((case.get("kw") or {}).items()))
+
+
 def oracle_json(case, outcome):
     v = jbuild(case["v"])
     if not j_in_quantifier(v):
         return []
+    ctx = _ctx_text(case)
     if "exc" in outcome:
-        return [{"signature": ["C20", "json", "exception:" + outcome["exc"]], "what": "JSON raised %s on %r" % (outcome["exc"], v)}]
+        return [{"signature": ["C20", "json", "exception:" + outcome["exc"]],
+                 "what": "JSON(%r) under %s raised %s: %s" % (v, ctx, outcome["exc"], outcome.get("msg"))}]
     out = outcome["out"]
+    if case_kwargs(case)[0].get("secondary_quote_char", "'") != "'":
+        return []        # not a standard SQL string literal by request of the caller
     cause = j_cause(v)
     content = py_sql_decode(out)
     if content is None:
         return [{"signature": ["C20", "json", cause],
-                 "what": "JSON(%r) renders %r which is not one SQL string literal" % (v, out)}]
+                 "what": "JSON(%r) under %s renders %r which is not one SQL string literal" % (v, ctx, out)}]
     try:
         back = _json.loads(content)
     except ValueError:
         return [{"signature": ["C20", "json", cause],
-                 "what": "JSON(%r) renders the literal content %r which is not valid JSON" % (v, content)}]
+                 "what": "JSON(%r) under %s renders the literal content %r which is not valid JSON" % (v, ctx, content)}]
     if not j_same(back, v):
         return [{"signature": ["C20", "json", cause],
-                 "what": "JSON(%r): content %r decodes to %r" % (v, content, back)}]
+                 "what": "JSON(%r) under %s: content %r decodes to %r" % (v, ctx, content, back)}]
     return []
 
 
-def oracle_seq_desc(d, dname, viols):
+def oracle_seq_desc(d, kw, dname, viols, out=None):
     ch = s_children(d)
     if ch is None:
         return
-    kw = skw(dname)
     kind = "array" if d[0] == "array" else "tuple"
-    out = sbuild(d).get_sql(**kw)
+    if out is None:
+        out = sbuild(d).get_sql(**kw)
     exp_elems = [sbuild(c).get_sql(**kw) for c in ch]
-    pg = dname in ("POSTGRESQL", "REDSHIFT")
+    pg = getattr(kw.get("dialect"), "name", None) in ("POSTGRESQL", "REDSHIFT")
     if kind == "tuple":
         form_ok = out.startswith("(") and out.endswith(")")
         form = "round"
@@ -716,7 +838,7 @@ def oracle_seq_desc(d, dname, viols):
             viols.append({"signature": ["C20", kind, "elements"],
                           "what": "%r has elements %r, built from %r (dialect %s)" % (out, toks, exp_elems, dname)})
     for c in ch:
-        oracle_seq_desc(c, dname, viols)
+        oracle_seq_desc(c, kw, dname, viols)
 
 
 def oracle(case, outcome):
@@ -729,7 +851,9 @@ def oracle(case, outcome):
         if "exc" in outcome:
             return [{"signature": ["C20", "seq", "exception:" + outcome["exc"]], "what": "rendering raised %s on %r" % (outcome["exc"], case)}]
         viols = []
-        oracle_seq_desc(case["t"], case["d"], viols)
+        kw, dname = case_kwargs(case)
+        dname = "%s [%s]" % (dname, _ctx_text(case)) if case.get("cls") is not None else dname
+        oracle_seq_desc(case["t"], kw, dname, viols, out=outcome["out"])
         seen, out = set(), []
         for v in viols:
             key = _json.dumps(v["signature"])
@@ -771,6 +895,8 @@ def histogram(cases):
     for c in cases:
         k = c["kind"]
         inc("kind=" + k)
+        if k in ("interval", "json", "seq"):
+            inc("%s.ctx=%s/%s" % (k, "own-kwargs" if c.get("cls") is None else CLASS_NAMES[c["cls"]], c.get("pos") or "direct"))
         if k == "interval":
             nz = [i for i, x in enumerate(c["vals"]) if x]
             inc("interval.nonzero_fields=%d" % len(nz))
@@ -780,7 +906,7 @@ def histogram(cases):
                 inc("interval.value_ends_in_0")
             if any(x < 0 for x in c["vals"]):
                 inc("interval.negative")
-            inc("interval.dialect=%s/%s" % (c["dc"], c["dr"]))
+            inc("interval.dialect=%s/%s" % (c["dc"], case_kwargs(c)[1]))
             if c["q"] or c["w"]:
                 inc("interval.quarter_or_week")
             if _interval_expectation(c) is None:
@@ -790,7 +916,7 @@ def histogram(cases):
             inc("json.in_quantifier=%s" % j_in_quantifier(v))
             inc("json.cause=" + j_cause(v))
         elif k == "seq":
-            inc("seq.%s.%s.n=%d" % (c["t"][0], c["d"], len(s_children(c["t"]) or [])))
+            inc("seq.%s.%s.n=%d" % (c["t"][0], case_kwargs(c)[1], len(s_children(c["t"]) or [])))
     return h
 
 
